@@ -13,28 +13,28 @@ def _live(prop, quick, thorough, assumptions):
 
 
 SPECS = {
-    'C01': _live('C01', 3000, 150000, ['behaviour for unknown labels or mixed object/property arguments is unspecified and not generated']),
-    'C02': _live('C02', 2500, 100000, ['negative indexes, slices and mixed-kind keys are unspecified and not generated']),
-    'C05': _live('C05', 2500, 100000, ['the order of the list returned by Context.neighbors() is unspecified and not asserted']),
-    'C09': _live('C09', 3000, 100000, ['upset_generalization is documented experimental and not checked']),
-    'C10': _live('C10', 2500, 100000, ['order inside concept.atoms and the layout of str() are not asserted']),
-    'C11': {'world': 'S', 'runs': {'quick': 1200, 'thorough': 30000}, 'gen': {'focus': 'C11'}, 'stream': 'C11',
+    'C01': _live('C01', 3000, 60000, ['behaviour for unknown labels or mixed object/property arguments is unspecified and not generated']),
+    'C02': _live('C02', 2500, 40000, ['negative indexes, slices and mixed-kind keys are unspecified and not generated']),
+    'C05': _live('C05', 2500, 50000, ['the order of the list returned by Context.neighbors() is unspecified and not asserted']),
+    'C09': _live('C09', 3000, 60000, ['upset_generalization is documented experimental and not checked']),
+    'C10': _live('C10', 2500, 50000, ['order inside concept.atoms and the layout of str() are not asserted']),
+    'C11': {'world': 'S', 'runs': {'quick': 1200, 'thorough': 10000}, 'gen': {'focus': 'C11'}, 'stream': 'C11',
             'timeout': 400, 'real': REAL, 'stub': STUB,
             'assumptions': ['FCA model + documented dict encoding (sim/refmodel_fca.py) are the specification',
                             'indistinguishable = equal transcripts of the query battery (sim/battery.py)',
                             'raw=False on permuted storage and extra keys are unspecified; pickle bytes are not compared']},
-    'C12': {'world': 'S', 'runs': {'quick': 3000, 'thorough': 100000}, 'gen': {'focus': 'C12'}, 'stream': 'C12',
+    'C12': {'world': 'S', 'runs': {'quick': 3000, 'thorough': 40000}, 'gen': {'focus': 'C12'}, 'stream': 'C12',
             'timeout': 300, 'real': REAL, 'stub': STUB,
             'assumptions': ['reference codecs (sim/refcodec.py) written from the format descriptions are the specification of the layouts',
                             'labels outside each format\'s representable set and fromfile(encoding=None) under non-UTF-8 locales are unspecified']},
-    'C13': {'world': 'D', 'runs': {'quick': 12000, 'thorough': 400000}, 'real': REAL, 'stub': STUB,
+    'C13': {'world': 'D', 'runs': {'quick': 12000, 'thorough': 200000}, 'real': REAL, 'stub': STUB,
             'assumptions': ['ordered-table reference model (sim/refmodel_table.py) is the specification',
                             'move_* with an index outside 0..len-1 and one-shot iterator arguments are unspecified and not generated',
                             'any exception class counts as "raises"']},
-    'C14': {'world': 'D', 'runs': {'quick': 12000, 'thorough': 400000}, 'real': REAL, 'stub': STUB,
+    'C14': {'world': 'D', 'runs': {'quick': 12000, 'thorough': 200000}, 'real': REAL, 'stub': STUB,
             'assumptions': ['ordered-table reference model (sim/refmodel_table.py) is the specification',
                             'rejection of Context(*d) for invalid triples is not asserted here (C19 is not claimed)']},
-    'C17': {'world': 'X', 'runs': {'quick': 280, 'thorough': 8000}, 'k': {'quick': 4, 'thorough': 12},
+    'C17': {'world': 'X', 'runs': {'quick': 280, 'thorough': 3000}, 'k': {'quick': 4, 'thorough': 8},
             'real': REAL + ['PYTHONHASHSEED of every interpreter', 'ASLR (on, and off via setarch -R when permitted)'],
             'stub': ['the scheduler / plan generator (the set-order seam is switched off in this world)'],
             'assumptions': ['memory addresses are masked by the regex 0x[0-9a-f]+ as the statement allows; pickle bytes are not compared',
